@@ -293,9 +293,10 @@ type Op struct {
 }
 
 type Ev struct {
-	Err   bool `json:"err"`
-	Cid   int  `json:"cid"`
-	Count int  `json:"count"`
+	Err   bool   `json:"err"`
+	Cid   int    `json:"cid"`
+	Count int    `json:"count"`
+	Msg   string `json:"msg,omitempty"`
 }
 
 // LogEnt is a request as the model sees it.
@@ -446,7 +447,11 @@ func (r *Run) Close() []Ev {
 }
 
 func (r *Run) ev(e dagsync.SyncFinished) Ev {
-	return Ev{Err: e.Err != nil, Cid: r.W.pos[e.Cid], Count: e.Count}
+	ev := Ev{Err: e.Err != nil, Cid: r.W.pos[e.Cid], Count: e.Count}
+	if e.Err != nil {
+		ev.Msg = e.Err.Error()
+	}
+	return ev
 }
 
 func (r *Run) latest() int {
